@@ -48,9 +48,9 @@ ASSUMPTIONS = [
 BUDGET = {"quick": 50, "thorough": 450}
 NCASES = {"quick": 3000, "thorough": 60000}
 FLOORS = {'quick': {'case_held': 400, 'nontrivial': 150}, 'thorough': {'case_held': 9000, 'nontrivial': 3000, 'suite:cancel_jacobian_products:held': 1}}
-COVER_FLOORS = {"quick": {"templates_held": ["realistic", "JK", "KJ", "identity", "nested", "powers", "recip"]}, "thorough": {"templates_held": ["realistic", "JK", "KJ", "identity", "nested", "powers", "recip", "reuse"]}}
+COVER_FLOORS = {"quick": {"templates_held": ["realistic", "JK", "KJ", "identity", "nested", "powers", "recip", "two-meshes"]}, "thorough": {"templates_held": ["realistic", "JK", "KJ", "identity", "nested", "powers", "recip", "reuse", "two-meshes"]}}
 CELLS = [("interval", 1), ("interval", 2), ("triangle", 2), ("triangle", 2), ("triangle", 3), ("tetrahedron", 3)]
-TEMPLATES = ["realistic", "realistic", "JK", "KJ", "identity", "nested", "powers", "recip", "reuse"]
+TEMPLATES = ['realistic', 'realistic', 'JK', 'KJ', 'identity', 'nested', 'powers', 'recip', 'reuse', 'two-meshes']
 TRAV = ["full", "full", "JacobianCanceller", "IdentityEliminator", "ReciprocalCanceller"]
 EXPONENTS = [2, 3, 0.5, 1.5, -1, -2, -0.5, 2.0, 0.25, -1.5, 4, 1]
 
@@ -102,6 +102,22 @@ def hostile(rng, U, G, name):
         v = vec(t)
         T = as_tensor(K[i, k] * u[k], (i,))  # K u
         return (Jm[j, i] * T[i]) * u[j] + (K[i, j] * Jm[j, k]) * A[i, k] * (K[k, j] * u[j]) * v[k] if False else (Jm[j, i] * T[i]) * u[j] + (K[i, j] * Jm[j, k]) * A[i, k]
+    if name == "two-meshes":
+        # Jacobians / inverses of two different meshes with the same cell: nothing may cancel across the meshes
+        mesh2 = E.mesh_for(U.cell, U.gdim)
+        J2, K2 = Jacobian(mesh2), JacobianInverse(mesh2)
+        U.mesh2 = mesh2
+        A = mat(g, g)
+        B2 = mat(t, t)
+        u = vec(g)
+        c = rng.randrange(4)
+        if c == 0:
+            return Jm[i, k] * K2[k, j] * A[i, j] + (J2[i, k] * K[k, j]) * A[j, i]
+        if c == 1:
+            return K2[i, k] * Jm[k, j] * B2[i, j] + K[i, k] * (J2[k, j] * B2[j, i])
+        if c == 2:
+            return (K2[i, k] * u[k]) * (K[i, j] * u[j]) + Jm[i, k] * K[k, j] * A[i, j] + J2[i, k] * K2[k, j] * A[j, i]
+        return ufl.inner(ufl.dot(Jm, K2), A) + ufl.inner(ufl.dot(K2, Jm), B2) * sc()
     if name == "powers":
         f = sc()
         base = rng.choice([f, detJ, f * detJ, 2 + f])
@@ -146,6 +162,10 @@ def case(ctx, i, rng):
         cls = getattr(cjp, trav)
         fn = lambda o: map_integrands(cls(), o)
     worlds = oracle.worlds_for(rng, cell, gdim, "cell", False, n=3)
+    if template == "two-meshes":
+        for w in worlds:
+            w.mesh = U.mesh
+            w.others = {U.mesh2: oracle.World(rng, cell, gdim, "cell", False)}
     verdict, out = check_pass(ctx, "C09", trav if trav != "full" else "cancel_jacobian_products", pre, fn, worlds,
                               extra_key="/manifold" if gdim > E.TD[cell] else "")
     if verdict == "held":
